@@ -74,14 +74,21 @@ fn parse_pv(a: &str) -> Vec<(BddVariable, bool)> {
 fn parse_bits(a: &str) -> Vec<bool> { if a == "~" { vec![] } else { a.chars().map(|c| c == '1').collect() } }
 
 fn fmt_pv_list(xs: &[BddPartialValuation], n: usize) -> String {
-    let mut out = format!("{}#", xs.len());
-    for (i, x) in xs.iter().enumerate() {
-        if i >= 24 { out.push_str("+"); break; }
-        if i > 0 { out.push('.'); }
-        out.push_str(&fmt_partial(x, n).replace(';', "+"));
-    }
+    let all: Vec<String> = xs.iter().map(|x| fmt_partial(x, n).replace(';', "+")).collect();
+    let mut out = format!("{}#{}", xs.len(), all.iter().take(24).cloned().collect::<Vec<_>>().join("."));
+    // the order of the WHOLE list is part of the observation
+    if all.len() > 24 { out.push_str(&format!("+h{}", fnv(&all.join(".")))); }
     out
 }
+fn op_by_name(name: &str) -> fn(Option<bool>, Option<bool>) -> Option<bool> {
+    match name {
+        "and" => op_function::and, "or" => op_function::or, "xor" => op_function::xor,
+        "imp" => op_function::imp, "iff" => op_function::iff, "and_not" => op_function::and_not,
+        _ => panic!("operator {}", name),
+    }
+}
+fn parse_optvar(a: &str) -> Option<BddVariable> { if a == "-" { None } else { Some(var(a.parse().unwrap())) } }
+fn fmt_check(r: Option<(bool, usize)>) -> String { match r { Some((f, c)) => format!("{}.{}", f as u8, c), None => s("none") } }
 fn fmt_opt_val(v: Option<BddValuation>) -> String { match v { Some(v) => fmt_valuation(&v), None => s("none") } }
 fn fmt_opt_pv(v: Option<BddPartialValuation>, n: usize) -> String { match v { Some(v) => fmt_partial(&v, n).replace(';', "+"), None => s("none") } }
 
@@ -195,6 +202,14 @@ fn exec(pool: &[Bdd], vs: &BddVariableSet, locals: &[V], ins: &str) -> Result<V,
                 if x.validate().is_ok() { "valid" } else { "invalid" }))
         }
         "eval" => t(s(if bdd(a[0])?.eval_in(&BddValuation::new(parse_bits(a[1]))) { "1" } else { "0" })),
+        // dry runs and size-limited operators: name, limit, operands (with optional flips)
+        "check" => t(fmt_check(Bdd::check_binary_op(a[1].parse().unwrap(), bdd(a[2])?, bdd(a[3])?, op_by_name(a[0])))),
+        "check_flip" => t(fmt_check(Bdd::check_fused_binary_flip_op(a[1].parse().unwrap(), (bdd(a[2])?, parse_optvar(a[3])),
+            (bdd(a[4])?, parse_optvar(a[5])), parse_optvar(a[6]), op_by_name(a[0])))),
+        "lim" => ob(Bdd::binary_op_with_limit(a[1].parse().unwrap(), bdd(a[2])?, bdd(a[3])?, op_by_name(a[0]))),
+        "lim_flip" => ob(Bdd::fused_binary_flip_op_with_limit(a[1].parse().unwrap(), (bdd(a[2])?, parse_optvar(a[3])),
+            (bdd(a[4])?, parse_optvar(a[5])), parse_optvar(a[6]), op_by_name(a[0]))),
+        "flip" => b(Bdd::fused_binary_flip_op((bdd(a[1])?, parse_optvar(a[2])), (bdd(a[3])?, parse_optvar(a[4])), parse_optvar(a[5]), op_by_name(a[0]))),
         "cmp" => {
             let (x, y) = (bdd(a[0])?, bdd(a[1])?);
             t(format!("{:?}.{:?}.{:?}.{}", Bdd::cmp_size(x, y), Bdd::cmp_cardinality(x, y), Bdd::cmp_structural(x, y), (x == y) as u8))
@@ -219,10 +234,24 @@ fn show(v: &Result<Option<V>, ()>) -> String {
 
 /// runs one program; the result texts, oldest first. After every instruction the operands are
 /// compared with their text before the call (`!operand-changed` is appended to the result if not).
-fn exec_prog(pool: &[Bdd], vs: &BddVariableSet, prog: &str) -> Vec<String> {
+fn exec_prog(pool: &[Bdd], vs: &BddVariableSet, prog: &str) -> Vec<String> { exec_prog_iso(pool, vs, prog, false).0 }
+
+fn eval_one(pool: &[Bdd], vs: &BddVariableSet, locals: &[V], ins: &str) -> Result<Option<V>, ()> {
+    match catch(|| exec(pool, vs, locals, ins)) {
+        None => Ok(None),
+        Some(Ok(v)) => Ok(Some(v)),
+        Some(Err(())) => Err(()),
+    }
+}
+
+/// as `exec_prog`; with `isolate` every single operation is ALSO evaluated, on the same operand
+/// values, by a newly spawned thread that has never computed anything (second list): the result of
+/// an operation must not depend on what its thread computed before.
+fn exec_prog_iso(pool: &[Bdd], vs: &BddVariableSet, prog: &str, isolate: bool) -> (Vec<String>, Vec<String>) {
     let mut locals: Vec<V> = Vec::new();
     let mut texts: Vec<String> = Vec::new();
-    if prog == "~" { return texts; }
+    let mut iso: Vec<String> = Vec::new();
+    if prog == "~" { return (texts, iso); }
     for ins in prog.split(';') {
         let operand_text = |locals: &[V]| -> Vec<String> {
             operand_refs(ins).iter().map(|r| {
@@ -235,17 +264,18 @@ fn exec_prog(pool: &[Bdd], vs: &BddVariableSet, prog: &str) -> Vec<String> {
             }).collect()
         };
         let before = operand_text(&locals);
-        let r: Result<Option<V>, ()> = match catch(|| exec(pool, vs, &locals, ins)) {
-            None => Ok(None),
-            Some(Ok(v)) => Ok(Some(v)),
-            Some(Err(())) => Err(()),
-        };
+        let r = eval_one(pool, vs, &locals, ins);
         let mut text = show(&r);
         if operand_text(&locals) != before { text.push_str("!operand-changed"); }
+        if isolate {
+            let locals_ref: &[V] = &locals;
+            let fresh = std::thread::scope(|sc| sc.spawn(move || show(&eval_one(pool, vs, locals_ref, ins))).join());
+            iso.push(fresh.unwrap_or_else(|_| s("thread-died")));
+        }
         texts.push(text);
         locals.push(match r { Ok(Some(v)) => v, Ok(None) => V::T(s("panic")), Err(()) => V::T(s("stuck")) });
     }
-    texts
+    (texts, iso)
 }
 
 fn parse_pool(text: &str) -> Vec<Bdd> {
@@ -286,19 +316,26 @@ fn run_threads(pool: &Arc<Vec<Bdd>>, vs: &Arc<BddVariableSet>, progs: &[&str]) -
     handles.into_iter().map(|h| h.join().unwrap_or_else(|_| vec![s("thread-died")])).collect()
 }
 
-/// `c19 single`: reads `<n> <pool> <progs>` from stdin, runs sequentially, prints the hashes
+/// `c19 single`: reads `run <n> <pool> <progs>` or `rep <n> <pool> <prog> <reps>` from stdin, runs
+/// sequentially in this fresh process, prints the hashes
 fn single() {
     std::panic::set_hook(Box::new(|_| {}));
     let mut input = String::new();
     std::io::stdin().read_to_string(&mut input).unwrap();
     let f: Vec<&str> = input.split_whitespace().collect();
-    let pool = parse_pool(f[1]);
-    let vs = var_set(f[0].parse().unwrap());
-    let progs: Vec<&str> = f[2].split('/').collect();
-    println!("{}", hashes(&run_sequential(&pool, &vs, &progs)));
+    let pool = parse_pool(f[2]);
+    let vs = var_set(f[1].parse().unwrap());
+    if f[0] == "rep" {
+        let reps: usize = f[4].parse().unwrap();
+        let runs: Vec<Vec<String>> = (0..reps).map(|_| exec_prog(&pool, &vs, f[3])).collect();
+        println!("{}", hashes(&runs));
+    } else {
+        let progs: Vec<&str> = f[3].split('/').collect();
+        println!("{}", hashes(&run_sequential(&pool, &vs, &progs)));
+    }
 }
 
-fn run_child(n: &str, pool: &str, progs: &str) -> String {
+fn run_child(request: &str) -> String {
     let exe = match std::env::current_exe() { Ok(e) => e, Err(_) => return s("child-no-exe") };
     let mut child = match Command::new(exe).arg("single").stdin(Stdio::piped()).stdout(Stdio::piped()).stderr(Stdio::null()).spawn() {
         Ok(c) => c,
@@ -306,7 +343,7 @@ fn run_child(n: &str, pool: &str, progs: &str) -> String {
     };
     {
         let mut stdin = child.stdin.take().unwrap();
-        let _ = stdin.write_all(format!("{} {} {}\n", n, pool, progs).as_bytes());
+        let _ = stdin.write_all(format!("{}\n", request).as_bytes());
     }
     match child.wait_with_output() {
         Ok(o) if o.status.success() => { let t = String::from_utf8_lossy(&o.stdout).trim().to_string(); if t.is_empty() { s("child-empty") } else { t } }
@@ -322,17 +359,36 @@ pub fn run(key: &str, a: &[String], out: &mut Out) {
             out.case(key, a, &[s("ok"), names.len().to_string()]);
         }
         "C19.run" => {
-            // n pool progs => seq-texts thread-hashes second-run-hashes child-hashes pool-after
+            // n pool progs => seq-texts thread-hashes second-run-hashes child-hashes pool-after isolated-hashes
             let pool = parse_pool(&a[1]);
             let n: usize = a[0].parse().unwrap();
             let progs: Vec<&str> = a[2].split('/').collect();
             let (pool, vs) = (Arc::new(pool), Arc::new(var_set(n)));
-            let seq = run_sequential(&pool, &vs, &progs);
+            // the sequential reference; every single operation is also evaluated by a fresh thread
+            let both: Vec<(Vec<String>, Vec<String>)> = progs.iter().map(|p| exec_prog_iso(&pool, &vs, p, true)).collect();
+            let seq: Vec<Vec<String>> = both.iter().map(|x| x.0.clone()).collect();
+            let iso: Vec<Vec<String>> = both.iter().map(|x| x.1.clone()).collect();
             let thr = run_threads(&pool, &vs, &progs);
             let again = run_sequential(&pool, &vs, &progs);
-            let child = run_child(&a[0], &a[1], &a[2]);
+            let child = run_child(&format!("run {} {} {}", a[0], a[1], a[2]));
             let after = if pool.is_empty() { s("~") } else { pool.iter().map(fmt_bdd).collect::<Vec<_>>().join("/") };
-            out.case(key, a, &[texts(&seq), hashes(&thr), hashes(&again), child, after]);
+            out.case(key, a, &[texts(&seq), hashes(&thr), hashes(&again), child, after, hashes(&iso)]);
+        }
+        "C19.rep" => {
+            // n pool prog reps => texts-of-first-evaluation, then the hashes of `reps` evaluations of the whole
+            // program: in this thread, each on a thread of its own, in a child process
+            let pool = Arc::new(parse_pool(&a[1]));
+            let vs = Arc::new(var_set(a[0].parse().unwrap()));
+            let reps: usize = a[3].parse().unwrap();
+            let inproc: Vec<Vec<String>> = (0..reps).map(|_| exec_prog(&pool, &vs, &a[2])).collect();
+            let handles: Vec<_> = (0..reps).map(|_| {
+                let (pool, vs, p) = (pool.clone(), vs.clone(), a[2].clone());
+                std::thread::spawn(move || exec_prog(&pool, &vs, &p))
+            }).collect();
+            let threads: Vec<Vec<String>> = handles.into_iter().map(|h| h.join().unwrap_or_else(|_| vec![s("thread-died")])).collect();
+            let child = run_child(&format!("rep {} {} {} {}", a[0], a[1], a[2], a[3]));
+            let first = inproc.first().cloned().unwrap_or_default();
+            out.case(key, a, &[if first.is_empty() { s("~") } else { first.join(";") }, hashes(&inproc), hashes(&threads), child]);
         }
         _ => panic!("unknown key {}", key),
     }
@@ -370,11 +426,28 @@ const UN_T: [&str; 26] = ["to_dnf", "to_cnf", "to_odnf", "sat_clauses", "sat_val
     "card", "clause_card", "fcard", "witness", "first_val", "last_val", "most_pos", "most_neg", "first_clause", "last_clause",
     "most_fixed", "most_free", "necessary", "support", "size_per_var", "props", "transfer"];
 
+fn gen_limit(rng: &mut Rng64) -> u64 {
+    match rng.below(7) { 0 => 0, 1 => 1, 2 => 2, 3 => 3, 4 | 5 => 4 + rng.below(20), _ => 1_000_000 }
+}
+fn gen_optvar(rng: &mut Rng64, n: usize) -> String { if rng.bool() { s("-") } else { rng.below(n.max(1) as u64).to_string() } }
+/// one dry run or size-limited operator; `r` draws an operand reference
+fn gen_limited(rng: &mut Rng64, n: usize, r: &dyn Fn(&mut Rng64) -> String) -> (String, bool) {
+    let name = *rng.pick(&BIN);
+    let lim = gen_limit(rng);
+    match rng.below(9) {
+        0..=2 => (format!("check:{},{},{},{}", name, lim, r(rng), r(rng)), false),
+        3..=4 => (format!("check_flip:{},{},{},{},{},{},{}", name, lim, r(rng), gen_optvar(rng, n), r(rng), gen_optvar(rng, n), gen_optvar(rng, n)), false),
+        5..=6 => (format!("lim:{},{},{},{}", name, lim, r(rng), r(rng)), true),
+        7 => (format!("lim_flip:{},{},{},{},{},{},{}", name, lim, r(rng), gen_optvar(rng, n), r(rng), gen_optvar(rng, n), gen_optvar(rng, n)), true),
+        _ => (format!("flip:{},{},{},{},{},{}", name, r(rng), gen_optvar(rng, n), r(rng), gen_optvar(rng, n), gen_optvar(rng, n)), true),
+    }
+}
+
 /// a random program of `len` instructions over a pool of `pool_len` Bdds with `n` variables
 fn gen_prog(rng: &mut Rng64, n: usize, pool_len: usize, len: usize) -> String {
     let mut is_bdd: Vec<bool> = vec![];
     let mut out: Vec<String> = vec![];
-    for _ in 0..len {
+    while out.len() < len {
         let bdd_locals: Vec<usize> = (0..is_bdd.len()).filter(|i| is_bdd[*i]).collect();
         let r = |rng: &mut Rng64| -> String {
             if rng.chance(1, 150) { return format!("l{}", is_bdd.len() + 3); }           // dangling reference
@@ -382,7 +455,17 @@ fn gen_prog(rng: &mut Rng64, n: usize, pool_len: usize, len: usize) -> String {
             else if pool_len == 0 { s("p0") } else { format!("p{}", rng.below(pool_len as u64)) }
         };
         let v = |rng: &mut Rng64| rng.below(n.max(1) as u64).to_string();
-        let (ins, b) = match rng.below(20) {
+        let choice = rng.below(23);
+        if choice >= 20 {
+            // a burst of dry runs / size-limited operators in a row on the same thread
+            for _ in 0..(2 + rng.below(4)) {
+                let (ins, b) = gen_limited(rng, n, &r);
+                out.push(ins);
+                is_bdd.push(b);
+            }
+            continue;
+        }
+        let (ins, b) = match choice {
             0..=4 => (format!("{}:{},{}", rng.pick(&BIN), r(rng), r(rng)), true),
             5 => (format!("ite:{},{},{}", r(rng), r(rng), r(rng)), true),
             6..=7 => (format!("{}:{}", rng.pick(&UN_B), r(rng)), true),
@@ -436,6 +519,35 @@ fn gen_pool(rng: &mut Rng64, n: usize, len: usize) -> String {
     if v.is_empty() { s("~") } else { v.join("/") }
 }
 
+const REP_OPS: [&str; 27] = ["to_odnf", "to_dnf", "to_cnf", "sat_clauses", "sat_vals", "support", "size_per_var", "expr_text", "expr_support",
+    "dot:p0,0", "dot:p0,1", "witness", "first_val", "last_val", "most_pos", "most_neg", "first_clause", "last_clause", "most_fixed", "most_free",
+    "necessary", "card", "clause_card", "fcard", "to_string", "to_bytes", "props"];
+
+/// a truth table with common cores: `f = g ∨ (lit ∧ h)` / `g ∧ (lit ∨ h)` style combinations, so that `∀x. f` is a
+/// non-trivial common core for several variables x, or a plain random table
+fn core_tt(rng: &mut Rng64, n: usize) -> TT {
+    let size = 1usize << n;
+    let bit = |i: usize, k: usize| (i >> (n - 1 - k)) & 1 == 1;
+    match rng.below(5) {
+        0 => (0..size).map(|_| rng.bool()).collect(),
+        1 => random_tt(rng, n),
+        _ => {
+            // core g ignores one or two variables; extra terms depend on them
+            let (k1, k2) = (rng.below(n as u64) as usize, rng.below(n as u64) as usize);
+            let raw: Vec<bool> = (0..size).map(|_| rng.chance(1, 3)).collect();
+            let mask = !((1usize << (n - 1 - k1)) | (1usize << (n - 1 - k2)));
+            let g: Vec<bool> = (0..size).map(|i| raw[i & mask]).collect();
+            let h1: Vec<bool> = (0..size).map(|_| rng.chance(1, 3)).collect();
+            let h2: Vec<bool> = (0..size).map(|_| rng.chance(1, 3)).collect();
+            let (p1, p2, conj) = (rng.bool(), rng.bool(), rng.chance(1, 4));
+            (0..size).map(|i| {
+                let extra = (bit(i, k1) == p1 && h1[i]) || (bit(i, k2) == p2 && h2[i]);
+                if conj { g[i] && !extra } else { g[i] || extra }
+            }).collect()
+        }
+    }
+}
+
 pub fn gen(tier: Tier, rng: &mut Rng64, out: &mut Out) {
     let thorough = tier == Tier::Thorough;
     run("C19.types", &[s("Bdd,BddVariableSet,BddValuation,BddPartialValuation,BddVariable,BddPointer,BddNode,BooleanExpression,iterators")], out);
@@ -452,11 +564,49 @@ pub fn gen(tier: Tier, rng: &mut Rng64, out: &mut Out) {
         all.extend([s("select:p0,0=1"), s("restrict:p1,0=0"), s("var_select:p2,0,1"), s("var_restrict:p3,0,0"), s("substitute:p0,0,p1"),
             s("and_exists:p0,p1,0"), s("imp_for_all:p2,p3,0"), s("pick_random:p0,0,0101"), s("cmp:p0,p1"), s("evalstr:(x0=>!x0)"),
             s("mk_var:0"), s("mk_exactly_k:1,0"), s("mk_up_to_k:1,0"), s("mk_clause:0=1"), format!("of_valuation:{}", "1".repeat(n)),
-            format!("eval:p0,{}", "0".repeat(n)), s("random_val:p1,010101010"), s("random_clause:p2,101010101"), s("dot:p3,1"), s("names:0"), s("not:l99")]);
+            format!("eval:p0,{}", "0".repeat(n)), s("random_val:p1,010101010"), s("random_clause:p2,101010101"), s("dot:p3,1"), s("names:0"), s("not:l99"),
+            s("check:and,0,p0,p1"), s("check:or,2,p0,p1"), s("check:xor,1000000,p2,p1"), s("check_flip:and,1,p0,0,p1,-,0"), s("check_flip:iff,1000000,p0,-,p1,0,-"),
+            s("lim:and,0,p0,p1"), s("lim:or,3,p0,p1"), s("lim:xor,1000000,p0,p1"), s("lim_flip:imp,2,p0,0,p1,-,-"), s("lim_flip:and_not,1000000,p0,-,p1,0,0"),
+            s("flip:and,p0,0,p1,-,-"), s("flip:xor,p0,-,p1,-,0")]);
         let prog = all.join(";");
         run("C19.run", &[n.to_string(), pool, format!("{}/{}", prog, prog)], out);
     }
-    let rounds = if thorough { 40000 } else { 2500 };
+    // ---- repetition of the operations whose result is not a Bdd: clause lists (the ORDER of the list is observed),
+    //      sorted support sets, expression text, dot text, witnesses, counts — each evaluated `reps` times in this thread,
+    //      on `reps` fresh threads and `reps` times in a child process; functions with common cores give the DNF
+    //      optimiser real choices
+    let rep_prog = REP_OPS.iter().map(|x| if x.contains(':') { x.to_string() } else { format!("{}:p0", x) }).collect::<Vec<_>>().join(";");
+    let reps = s("8");
+    let mut rep_case = |b: &Bdd, n: usize, out: &mut Out| run("C19.rep", &[n.to_string(), fmt_bdd(b), rep_prog.clone(), reps.clone()], out);
+    for t in 0..256u64 {
+        if thorough || t % 2 == 0 || t % 7 == 0 { rep_case(&bdd_of_tt(3, &tt_from_index(3, t)), 3, out); }
+    }
+    for _ in 0..(if thorough { 6000 } else { 420 }) {
+        let n = 4 + (rng.below(6) as usize) / 3 + (rng.below(6) as usize) / 4;     // 4 mostly, 5, 6
+        rep_case(&bdd_of_tt(n, &core_tt(rng, n)), n, out);
+    }
+    // ---- dry runs and size-limited operators only, several in a row on every thread
+    for _ in 0..(if thorough { 4000 } else { 300 }) {
+        let n = 3 + rng.below(6) as usize;
+        let pool_len = 2 + rng.below(3) as usize;
+        let pool: Vec<String> = (0..pool_len).map(|_| fmt_bdd(&bdd_of_tt(n, &core_tt(rng, n)))).collect();
+        let threads = 2 + rng.below(3) as usize;
+        let progs: Vec<String> = (0..threads).map(|_| {
+            let len = 4 + rng.below(10);
+            let mut is_bdd: Vec<bool> = vec![];
+            let mut out: Vec<String> = vec![];
+            for _ in 0..len {
+                let locals: Vec<usize> = (0..is_bdd.len()).filter(|i| is_bdd[*i]).collect();
+                let r = |rng: &mut Rng64| if !locals.is_empty() && rng.chance(1, 4) { format!("l{}", rng.pick(&locals)) } else { format!("p{}", rng.below(pool_len as u64)) };
+                let (ins, b) = gen_limited(rng, n, &r);
+                out.push(ins);
+                is_bdd.push(b);
+            }
+            out.join(";")
+        }).collect();
+        run("C19.run", &[n.to_string(), pool.join("/"), progs.join("/")], out);
+    }
+    let rounds = if thorough { 30000 } else { 1800 };
     for round in 0..rounds {
         if out.full() { break; }
         let n = 1 + rng.below(8) as usize;
